@@ -5,7 +5,7 @@
 D=$1; M=$2; NP=${3:-2}
 W=/tmp/confirm/$(basename $D)-$M
 rm -rf $W; mkdir -p $W
-rsync -a --exclude='.git' --exclude='*.o' --exclude='*.lo' --exclude='*.la' --exclude='.libs' --exclude='.deps' --exclude='*.log' --exclude='*.trs' --exclude='config.status' --exclude='*.nc' /repo/ $W/
+rsync -a --exclude='.git' --exclude='*.o' --exclude='*.lo' --exclude='*.la' --exclude='.libs' --exclude='.deps' --exclude='*.log' --exclude='*.trs' --exclude='config.status' /repo/ $W/
 cd $W
 ( ./configure --disable-fortran CFLAGS="-O1 -Wno-error" CXXFLAGS="-Wno-error" > conf.log 2>&1 && make -j6 > make.log 2>&1 ) || { echo '{"ok":false,"why":"baseline build failed"}' > $D/confirm_$M.json; exit 1; }
 mpicc -I src/include $D/demo_$M.c -o demo_$M src/libs/.libs/libpnetcdf.a -lm > demo.log 2>&1 || { echo '{"ok":false,"why":"demo compile failed"}' > $D/confirm_$M.json; exit 1; }
